@@ -926,6 +926,9 @@ pub fn do_go(e: &mut Engine, l: &Limits, stm: u8) -> GoOutcome {
 }
 
 pub fn run_c09(ctx: &Ctx, prop: &str) -> Result<(), String> {
+    if prop == "C09" {
+        let _ = ADVERTISED.set(learn_options(ctx));
+    }
     let seeds: Vec<String> = corpus::all_seeds()?;
     let n = match (prop, ctx.tier.as_str()) {
         ("C09", "thorough") => 12_000,
@@ -995,6 +998,27 @@ fn go_session(ctx: &Ctx, idx: usize, seeds: &[String], prop: &str) {
         };
         if g.last().legal_moves().is_empty() {
             return;
+        }
+    }
+    if prop == "C09" && idx % 4 == 1 {
+        // configuration first: one to three of the options the engine itself advertises, at values
+        // inside their declared ranges (a setting stays in force for every go of the session)
+        let adv: Vec<&String> = ADVERTISED.get().map_or(Vec::new(), |v| v.iter().collect());
+        let in_range: Vec<&&String> = adv.iter().filter(|l| !l.ends_with(" -1") && !l.ends_with("5001") && !l.ends_with(" 0") || l.contains("Move Overhead value 0")).collect();
+        if !in_range.is_empty() {
+            for _ in 0..(1 + rng.below(3)) {
+                e.send(rng.pick(&in_range));
+            }
+            // mid-range values of spin options as well
+            for l in &adv {
+                if let Some((head, _)) = l.rsplit_once(" value ") {
+                    if head.contains("Move Overhead") && rng.chance(1, 2) {
+                        e.send(&format!("{head} value {}", rng.pick(&[20u64, 50, 100, 200, 500, 1000, 2500])));
+                        break;
+                    }
+                }
+            }
+            out::count("C09.sessions_with_options_set_first", 1);
         }
     }
     if prop == "C09" && idx % 10 == 9 {
